@@ -35,29 +35,36 @@ def run(ctx):
     # (a) exhaustive: every schedule of {2 subscribers set up one after the other} x {one client-side terminator} x {one source-side
     #     terminator} without events (complete/error/done vs unsubscribe/remove client/shutdown), incl. one mutual-exclusion probe
     s, n = sc.generate(ctx, "term", sc.gen_cfg("term", MaxEvents=0, MaxTerm=1, MaxSrcTerm=1, MaxProbes=1, CfgOK="CfgRace"), rng,
-                       cap=700 if quick else None, timeout=1200)
+                       cap=500 if quick else None, timeout=1200)
     batches.append(("term", s))
     totals["term"] = n
     # (a') exhaustive: pure delivery, two events through one trigger with every filter combination; each schedule several times
     #      (the order in which the code walks its subscriber map is not ours to choose)
     s, n = sc.generate(ctx, "deliver", sc.gen_cfg("deliver", MaxEvents=2, MaxTerm=0, MaxSrcTerm=0, CfgOK="CfgSame"), rng, timeout=600)
     rep = []
-    for k in range(4):
+    for k, fk in enumerate(sc.FKS):          # once per way of writing the filter value (static / variable: number, array, true, false, string)
         for x in s:
             y = dict(x)
             y["id"] = "%s-r%d" % (x["id"], k)
-            y["kv"] = ["input", "hdr"][k % 2]
+            y["kv"] = sc.KVS[k % len(sc.KVS)]
+            y["fk"] = fk
             rep.append(y)
     batches.append(("deliver", rep))
     totals["deliver"] = n
+    # (a'') exhaustive: one event whose resolution performs a nested fetch per subscriber (the update goroutine sits in the fetch,
+    #       outside every lock) racing with one client-side terminator
+    s, n = sc.generate(ctx, "fetch", sc.gen_cfg("fetch", MaxEvents=1, MaxTerm=1, MaxSrcTerm=0, CfgOK="CfgFetch"), rng,
+                       cap=350 if quick else None, timeout=1200)
+    batches.append(("fetch", s))
+    totals["fetch"] = n
     if not quick:
         # (b) exhaustive: the same with one event in flight (update vs removal / completion / flush failure)
         s, n = sc.generate(ctx, "ev1", sc.gen_cfg("ev1", MaxEvents=1, MaxTerm=1, MaxSrcTerm=1, CfgOK="CfgSame"), rng, cap=8000, timeout=2400)
         batches.append(("ev1", s))
         totals["ev1"] = n
     # (c) sampled: 2 events, heartbeat, second source goroutine, flush / heartbeat failures, probes, every configuration
-    s, n = sc.generate(ctx, "sim", sc.gen_cfg("sim", MaxEvents=2, MaxTerm=1, MaxSrcTerm=1, MaxHB=1, UseD="TRUE", MaxProbes=1, CfgOK="CfgAll"),
-                       rng, simulate=2600 if quick else 10000, depth=400, timeout=2400, cap=1100 if quick else None)
+    s, n = sc.generate(ctx, "sim", sc.gen_cfg("sim", MaxEvents=2, MaxTerm=1, MaxSrcTerm=1, MaxHB=1, UseD="TRUE", MaxProbes=1, CfgOK="CfgAll", AllowCloseSub="TRUE"),
+                       rng, simulate=2600 if quick else 10000, depth=400, timeout=2400, cap=900 if quick else None)
     batches.append(("sim", s))
     totals["sim"] = n
     # (d) sampled: the same with 2 client-side terminators (e.g. flush failure + unsubscribe, remove client + shutdown)
@@ -65,6 +72,12 @@ def run(ctx):
                        rng, simulate=800 if quick else 4000, depth=400, timeout=2400, cap=400 if quick else None)
     batches.append(("sim2", s))
     totals["sim2"] = n
+    # (e) sampled: three subscriber slots (two triggers + a joiner, re-subscription chains), CloseSubscription from the source
+    s, n = sc.generate(ctx, "sim3", sc.gen_cfg("sim3", NS=3, MaxEvents=2, MaxTerm=2, MaxSrcTerm=1, MaxHB=1, UseD="FALSE", StartModes="StartOK",
+                                               CfgOK="CfgThree", MaxProbes=1, AllowCloseSub="TRUE"),
+                       rng, simulate=500 if quick else 4000, depth=500, timeout=2400, cap=300 if quick else None)
+    batches.append(("sim3", s))
+    totals["sim3"] = n
     # ---- 3./4. replay + validate -------------------------------------------------------------------------------
     tot = sc.run_batches(ctx, PROP, binary, batches)
     mc_future.result()
